@@ -291,7 +291,26 @@ P2Roots == {<<I, K>> : I \in 2..3, K \in 1..MaxDim}
 \* the rank / column count one too large, -1: one too small -- down to rank 0 and boundary rank 0).
 \* Both directions matter: a validator that only looks for an excess (or only for a deficit) is wrong.
 Rec(op, s, r, hw, ls) == [op |-> op, shape |-> s, rank |-> r, hasw |-> hw, lens |-> ls, bad |-> "none", at |-> 0, dl |-> 0,
-                          skip |-> -1, tr |-> FALSE, modes |-> <<>>]
+                          skip |-> -1, tr |-> FALSE, modes |-> <<>>, mix |-> "none"]
+\* Mixed storage types across the parts of ONE factorised tensor (valid family).  "<type>_first/last":
+\* the first / last factor (core, for TT-like formats) is stored as int64, float32 or complex128, every
+\* other array as float64.  Non-integer arrays hold half-integers (numerators over the denominator 2
+\* listed in `dens`), so that a result truncated to the integer type, or rounded through a narrower
+\* type, differs from the contraction in the promoted type; a complex factor has an imaginary part.
+\* The represented tensor is multilinear in each part: numerators contract to the numerator of the
+\* result over PROD dens (MixHomogeneous), and a complex part a + ib gives Dense(a) + i Dense(b)
+\* (MixAdditive) -- both TLC-checked below, and used by the trace specification.
+MixNames == {"int_first", "int_last", "f32_first", "f32_last", "cplx_first", "cplx_last"}
+MixCfgs(base) == IF base.op # "p2" /\ (Size(base.shape) > MaxBadSize \/ Len(base.shape) > 3) THEN {}
+                 ELSE {[base EXCEPT !.mix = m] : m \in MixNames}
+MixType(c) == CASE c.mix \in {"int_first", "int_last"} -> "int64"
+                [] c.mix \in {"f32_first", "f32_last"} -> "float32"
+                [] c.mix \in {"cplx_first", "cplx_last"} -> "complex128"
+                [] OTHER -> "float64"
+\* NumPy's promotion on this sub-lattice: int64, float32 < float64 < complex128
+\* (a single-core TT-matrix has no second array to promote with: it keeps its own type)
+MixOut(c) == IF c.op = "ttm" /\ Len(c.shape) = 2 THEN MixType(c)
+             ELSE IF c.mix \in {"cplx_first", "cplx_last"} THEN "complex128" ELSE "float64"
 \* Tucker view options (valid family): every skip position, transposed factors, explicit mode lists
 TuckerOptCfgs(s) ==
     LET N == Len(s)
@@ -313,29 +332,35 @@ CfgsOf(root) ==
         twos(n) == [q \in 1..n |-> 2] IN
     CASE kd = "cp" ->
             {Rec("cp", s, <<r>>, hw, <<>>) : r \in 1..MaxRank, hw \in BOOLEAN}
+            \cup MixCfgs(Rec("cp", s, <<2>>, TRUE, <<>>))
             \cup UNION {Perturb(Rec("cp", s, <<r>>, TRUE, <<>>), {"fcols"}, 1..N, {1, -1}) : r \in 1..2}
             \cup Perturb(Rec("cp", s, <<2>>, TRUE, <<>>), {"wlen"}, {0}, {1, -1})
       [] kd = "tucker" ->
             {Rec("tucker", s, r, FALSE, <<>>) : r \in RankVecs(N)} \cup TuckerOptCfgs(s)
+            \cup MixCfgs(Rec("tucker", s, [q \in 1..N |-> 1 + (q % 2)], FALSE, <<>>))
             \cup Perturb(Rec("tucker", s, [q \in 1..N |-> 1 + (q % 2)], FALSE, <<>>), {"fcols"}, 1..N, {1, -1})
             \cup Perturb(Rec("tucker", s, twos(N), FALSE, <<>>), {"nfactors"}, {0}, {-1})
       [] kd = "tt" ->
             {Rec("tt", s, <<1>> \o r \o <<1>>, FALSE, <<>>) : r \in [1..(N - 1) -> 1..RankTop(N)]}
+            \cup MixCfgs(Rec("tt", s, <<1>> \o twos(N - 1) \o <<1>>, FALSE, <<>>))
             \cup Perturb(Rec("tt", s, <<1>> \o twos(N - 1) \o <<1>>, FALSE, <<>>), {"chain"}, 1..(N - 1), {1, -1})
             \cup Perturb(Rec("tt", s, <<1>> \o twos(N - 1) \o <<1>>, FALSE, <<>>), {"bound_first", "bound_last"}, {0}, {1, -1})
       [] kd = "tr" ->
             {Rec("tr", s, r \o <<r[1]>>, FALSE, <<>>) : r \in RankVecs(N)}
+            \cup MixCfgs(Rec("tr", s, twos(N + 1), FALSE, <<>>))
             \cup Perturb(Rec("tr", s, twos(N + 1), FALSE, <<>>), {"chain"}, 1..(N - 1), {1, -1})
             \cup Perturb(Rec("tr", s, twos(N + 1), FALSE, <<>>), {"closure", "closure_first"}, {0}, {1, -1})
       [] kd = "ttm" ->
             LET d == N \div 2 IN
             {Rec("ttm", s, <<1>> \o r \o <<1>>, FALSE, <<>>) : r \in [1..(d - 1) -> 1..MaxRank]}
+            \cup (IF Size(s) <= MaxBadSize THEN {[Rec("ttm", s, <<1>> \o twos(d - 1) \o <<1>>, FALSE, <<>>) EXCEPT !.mix = m] : m \in MixNames} ELSE {})
             \cup Perturb(Rec("ttm", s, <<1>> \o twos(d - 1) \o <<1>>, FALSE, <<>>), {"chain"}, 1..(d - 1), {1, -1})
             \cup Perturb(Rec("ttm", s, <<1>> \o twos(d - 1) \o <<1>>, FALSE, <<>>), {"bound_first", "bound_last"}, {0}, {1, -1})
       [] kd = "p2" ->
             \* shape = <<I, K>>; lens = slice lengths J_i >= rank (P_i has orthonormal columns)
             LET ib == Rec("p2", s, <<2>>, TRUE, [q \in 1..s[1] |-> 2 + (q % 2)]) IN
             {Rec("p2", s, <<r>>, hw, js) : r \in 1..MaxRank, js \in [1..s[1] -> 1..MaxP2J], hw \in BOOLEAN}
+            \cup MixCfgs(ib) \cup MixCfgs(Rec("p2", s, <<1>>, TRUE, [q \in 1..s[1] |-> 1 + (q % 3)]))
             \cup Perturb(ib, {"pcols"}, 1..s[1], {1, -1})
             \cup Perturb(ib, NonOrthNames, 1..s[1], {0})
             \cup Perturb(ib, {"bcols", "ccols"}, {0}, {1, -1})
@@ -370,6 +395,7 @@ PShapes(c) ==
                        THEN (IF c.dl = 1 THEN <<c.lens[i] + 1, c.rank[1] + 1>> ELSE <<c.lens[i], c.rank[1] - 1>>)
                        ELSE <<c.lens[i], c.rank[1]>>]
          IN  IF c.bad = "nproj" THEN Tail(all) ELSE all
+MixAt(c) == IF c.mix \in {"int_first", "f32_first", "cplx_first"} THEN 1 ELSE Len(FactorShapes(c))
 \* the exported configuration: the record above plus the array shapes the harness has to fill
 Expand(c) ==
     [op |-> c.op, shape |-> c.shape, rank |-> c.rank, hasw |-> c.hasw, bad |-> c.bad, at |-> c.at, dl |-> c.dl,
@@ -380,7 +406,15 @@ Expand(c) ==
      \* with transposed factors the "core" is the tensor the factors project (mode sizes = the factors' row counts)
      coreshape |-> IF c.op = "tucker" THEN (IF c.tr THEN c.shape ELSE c.rank) ELSE <<>>,
      pshapes |-> PShapes(c),
-     pden |-> IF c.bad = "nonorth_half" THEN 2 ELSE 1]
+     pden |-> IF c.bad = "nonorth_half" THEN 2 ELSE 1,
+     mix |-> c.mix,
+     \* storage type and denominator of every factor array, the position of the complex one (0: none),
+     \* the denominator of the Tucker core, and the promoted type every view must come back in
+     dtypes |-> [k \in 1..Len(FactorShapes(c)) |-> IF c.mix # "none" /\ k = MixAt(c) THEN MixType(c) ELSE "float64"],
+     dens   |-> [k \in 1..Len(FactorShapes(c)) |-> IF c.mix = "none" \/ (k = MixAt(c) /\ MixType(c) = "int64") THEN 1 ELSE 2],
+     cden   |-> IF c.mix # "none" /\ c.op = "tucker" THEN 2 ELSE 1,
+     imk    |-> IF c.mix \in {"cplx_first", "cplx_last"} THEN MixAt(c) ELSE 0,
+     outdtype |-> MixOut(c)]
 \* which named class a perturbation belongs to ("none": valid, "other": no obligation)
 ClassOfBad(c) ==
     CASE c.bad = "none" -> "none"
@@ -444,7 +478,21 @@ OptCfgOK(c) ==      \* Tucker view options: ONE option-dependent dense tensor, c
     /\ (~c.tr /\ c.modes = <<>> => TuckerDenseOpt(in, -1, FALSE, <<>>) = TuckerDense(in))
     /\ \A m \in 0..(N - 1) : Norm2(Unfold(D, m)) = Norm2(D) /\ Len(Vec(D).data) = Size(D.shape)
 
+AddT(X, Y) == [shape |-> X.shape, data |-> [n \in 1..Len(X.data) |-> X.data[n] + Y.data[n]]]
+ScaleT(X, a) == [shape |-> X.shape, data |-> [n \in 1..Len(X.data) |-> a * X.data[n]]]
+MixCfgOK(c) ==      \* multilinearity in the distinguished part: what makes numerators / real-imaginary parts exact
+    LET in == GenIn(c)  kd == c.op  k == MixAt(c)
+        Y  == GenT(in.fs[k].shape, 7)
+        D  == Dense(kd, in) IN
+    /\ c.bad = "none" /\ ~HasOpt(c) /\ Valid(kd, in) /\ k \in 1..Len(in.fs)
+    \* the part k = X + Y  contracts to  Dense(X) + Dense(Y)            (complex part a + ib: Dense(a) + i Dense(b))
+    /\ Dense(kd, [in EXCEPT !.fs[k] = AddT(in.fs[k], Y)]) = AddT(D, Dense(kd, [in EXCEPT !.fs[k] = Y]))            \* MixAdditive
+    \* any part doubled contracts to twice the tensor                   (numerators over a denominator)
+    /\ \A j \in 1..Len(in.fs) : Dense(kd, [in EXCEPT !.fs[j] = ScaleT(in.fs[j], 2)]) = ScaleT(D, 2)              \* MixHomogeneous
+    /\ (kd = "tucker" => TuckerDense([in EXCEPT !.core = ScaleT(in.core, 2)]) = ScaleT(D, 2))
+
 CfgOK(c) ==
+    IF c.mix # "none" THEN MixCfgOK(c) ELSE
     IF HasOpt(c) THEN OptCfgOK(c) ELSE
     LET in == GenIn(c)  kd == c.op IN
     /\ ValidCfg(c)
